@@ -70,6 +70,15 @@ func genC10(prop string, r *sim.Rng, i int) *c10Case {
 	if prop == "C11" && r.Chance(1, 4) {
 		c.WriteErr = 1 + r.Intn(5)
 	}
+	if prop == "C11" && i%11 == 9 {
+		// a platform definition whose on-open sequence writes a redacted secret: as a YAML string (it is
+		// written, redacted), or as something that does not decode as a string — an unquoted all-digit
+		// secret — in which case the step is refused; whatever is logged must not hold the secret
+		c.Kind = "platform-onopen"
+		c.OnAuth = r.Intn(4) // 0,1: quoted string; 2: unquoted digits; 3: unquoted digits, generic driver
+		c.Secret = fmt.Sprintf("%d", 1000000+r.Intn(899999999))
+		return c
+	}
 	if prop == "C11" && i%11 == 10 {
 		// the system transport itself: a login it refuses before ssh is started (key with a
 		// passphrase), and one whose ssh exits at once; whatever it logs must not hold a credential
@@ -237,6 +246,10 @@ func runC10Case(id string, c *c10Case) {
 	}
 	if c.Kind == "system" {
 		runC11System(cs, c, sink, li)
+		return
+	}
+	if c.Kind == "platform-onopen" {
+		runC11Platform(id, cs, c, sink, li)
 		return
 	}
 	dev := &sim.LoginDevice{Turns: c.Turns}
